@@ -84,7 +84,7 @@ func collRun(cfg collCfg, ch vrt.Chooser, trace, race bool, script func(w *world
 				r.Finish()
 			}}
 		})
-		if err := w.Server.AddPeer(peerConfig(remIP, cfg.localAS, cfg.remoteAS), pl, corebgp.WithDialerControl(w.DialControl("P1"))); err != nil {
+		if err := w.AddPeer(peerConfig(remIP, cfg.localAS, cfg.remoteAS), pl, corebgp.WithDialerControl(w.DialControl("P1"))); err != nil {
 			panic("harness: " + err.Error())
 		}
 		w.Serve(libAddr)
@@ -353,7 +353,7 @@ func c07TwoRounds(cfg collCfg, first string, bound int) *Scn {
 					r.Finish()
 				}}
 			})
-			if err := w.Server.AddPeer(peerConfig(remIP, cfg.localAS, cfg.remoteAS), pl, corebgp.WithDialerControl(w.DialControl("P1")), corebgp.WithIdleHoldTime(time.Second)); err != nil {
+			if err := w.AddPeer(peerConfig(remIP, cfg.localAS, cfg.remoteAS), pl, corebgp.WithDialerControl(w.DialControl("P1")), corebgp.WithIdleHoldTime(time.Second)); err != nil {
 				panic("harness: " + err.Error())
 			}
 			w.Serve(libAddr)
@@ -666,6 +666,8 @@ func c07Check(c *harness.Ctx) {
 	scns = withLegacy(scns, legacyEvery(c.Thorough(), 4))
 	scns = append(scns, c07SlowTwins(c.Thorough())...)
 	scns = append(scns, c07ExtraScenarios(c.Thorough())...)
+	nb := len(scns)
+	scns = append(scns, withHold0(scns[:nb:nb], legacyEvery(c.Thorough(), 3)*2)[nb:]...)
 	for i, s := range scns {
 		if !c.Mine(i) {
 			continue
@@ -732,7 +734,7 @@ func c07RetryRun(cfg collCfg, ch vrt.Chooser, trace bool) (*world.World, *vrt.Ex
 				collTail(w, r, "out", o)
 			}}
 		})
-		if err := w.Server.AddPeer(peerConfig(remIP, cfg.localAS, cfg.remoteAS), pl, corebgp.WithDialerControl(w.DialControl("P1"))); err != nil {
+		if err := w.AddPeer(peerConfig(remIP, cfg.localAS, cfg.remoteAS), pl, corebgp.WithDialerControl(w.DialControl("P1"))); err != nil {
 			panic("harness: " + err.Error())
 		}
 		w.Serve(libAddr)
@@ -837,7 +839,7 @@ func c07LateRun(cfg collCfg, how string, ch vrt.Chooser, trace bool) (*world.Wor
 				o.eof["out"] = r.EOF || r.ReadErr != nil
 			}}
 		})
-		if err := w.Server.AddPeer(peerConfig(remIP, cfg.localAS, cfg.remoteAS), pl, corebgp.WithDialerControl(w.DialControl("P1"))); err != nil {
+		if err := w.AddPeer(peerConfig(remIP, cfg.localAS, cfg.remoteAS), pl, corebgp.WithDialerControl(w.DialControl("P1"))); err != nil {
 			panic("harness: " + err.Error())
 		}
 		w.Serve(libAddr)
